@@ -561,7 +561,7 @@ def order_of(ctx: Ctx, f: Func, expr: ast.AST, depth: int = 0, _seen: Optional[S
         if isinstance(fn, ast.Attribute) and fn.attr in ("split", "splitlines", "rsplit"):
             r = order_of(ctx, f, fn.value, depth + 1, _seen)
             return (r[0], "split of " + r[1]) if r[0].startswith("ordered") else r
-        if isinstance(fn, ast.Attribute) and fn.attr == "copy":
+        if isinstance(fn, ast.Attribute) and fn.attr in ("copy", "items", "keys", "values"):
             return order_of(ctx, f, fn.value, depth + 1, _seen)
         # package callee: judge its return expressions, then map the root parameter to the argument
         for ed in ctx.cg.all_edges(f):
@@ -579,6 +579,9 @@ def order_of(ctx: Ctx, f: Func, expr: ast.AST, depth: int = 0, _seen: Optional[S
                 if st.startswith("ordered:"):
                     root = st.split(":", 1)[1].split(".")[0]
                     gp = g.params
+                    if g.is_bound and gp and root == gp[0] and isinstance(fn, ast.Attribute):
+                        rest = st.split(":", 1)[1].split(".", 1)[1:]
+                        return f"ordered:{src(fn.value)}" + ("." + rest[0] if rest else ""), f"{g.qualname}: {why}"
                     off = 1 if g.is_bound else 0
                     arg = None
                     if root in gp:
